@@ -42,9 +42,25 @@ ASSUMPTIONS = [
     'answers "absent", as modelled)',
     'integer emit times',
 ]
-CASE_TIMEOUT = 10.0
+CASE_TIMEOUT = 20.0
 
 KEYS = ['a', 'b', 'c', 'd', 'e']
+
+
+def _warm():
+    """import the implementation once in the parent: the forked workers inherit the loaded modules,
+    so the per-case watchdog times the case, not the imports"""
+    try:
+        with warnings.catch_warnings():
+            warnings.simplefilter('ignore')
+            import importlib
+            for m in ['vivarium.core.emitter']:
+                importlib.import_module(m)
+    except Exception:  # a broken import shows up in run_impl
+        pass
+
+
+_warm()
 
 
 # ------------------------------------------------------------------ generators
